@@ -18,7 +18,8 @@ mod options;
 mod progress;
 
 use std::collections::HashSet;
-use std::path::PathBuf;
+use std::os::unix::ffi::OsStrExt;
+use std::path::{Path, PathBuf};
 use std::{result, thread};
 use std::sync::Arc;
 
@@ -88,6 +89,15 @@ fn opts_check(opts: &Opts) -> Result<()> {
     Ok(())
 }
 
+/// Does the path end in `.` or `..` (or is it `/`)?
+/// `Path::components()` drops a trailing `.`, so look at the raw bytes.
+fn names_contents(source: &Path) -> bool {
+    let raw = source.as_os_str().as_bytes();
+    let end = raw.iter().rposition(|c| *c != b'/').map_or(0, |p| p + 1);
+    let name = raw[..end].rsplit(|c| *c == b'/').next().unwrap_or(b"");
+    matches!(name, b"" | b"." | b"..")
+}
+
 fn main() -> Result<()> {
     let opts = Opts::from_args()?;
     init_logging(&opts)?;
@@ -132,7 +142,10 @@ fn main() -> Result<()> {
             .next_back()
             .ok_or(XcpError::InvalidSource("Failed to find source directory name."))?;
 
-        let target_base = if dest.exists() && dest.is_dir() && !opts.no_target_directory {
+        // As with cp, a source spelled `dir/.` or `dir/..` stands
+        // for that directory's contents and maps onto the
+        // destination itself, never onto `dest/..`.
+        let target_base = if dest.exists() && dest.is_dir() && !opts.no_target_directory && !names_contents(source) {
             dest.join(sourcedir)
         } else {
             dest.to_path_buf()
